@@ -3395,6 +3395,11 @@ FROM (
             )
             rule_result_refs.append((rule_cte_name, parsed.left_code_item))
 
+            if input_mode == "dataset":
+                # Input mode 'dataset': every rule reads the operand only; computed
+                # values are not fed into the following rules.
+                continue
+
             next_pivot = f"_pivot_{i}"
             # Each _pivot_i is consumed by the next iteration's _rule_{i+1} and
             # by the next _pivot_{i+1}. Without materialization the chain of N
